@@ -10,6 +10,8 @@ if st:
 subprocess.run(["git", "-C", "/repo", "apply", os.path.join(d, "patch.diff")], check=True)
 res = {}
 import shutil
+import signal
+signal.signal(signal.SIGTERM, lambda *a: sys.exit(143))   # a killed run still restores /repo (finally below)
 try:
     for pid in pids:
         t0 = time.time()
